@@ -14,6 +14,7 @@ type c08Gen struct {
 	nextID uint64
 	ids    []uint64
 	keys   [c08NumChan][]c08Key // keys ever appended per channel (may be live or truncated)
+	pairs  [c08NumChan][]c08Pair // (key, message id) of rows appended per channel: verbatim replays
 	leo    [c08NumChan]uint64
 	seqOf  [c08NumChan][]c08Key // shadow: key at seq i+1 (estimate)
 	fresh  int
@@ -38,6 +39,11 @@ func c08Rec(id uint64, k c08Key) string {
 }
 
 // emit an append; `expectOK` is the generator's belief (only used to keep the shadow roughly right)
+type c08Pair struct {
+	k  c08Key
+	id uint64
+}
+
 func (x *c08Gen) app(kind string, c int, mode int, base uint64, ks []c08Key, ids []uint64, expectOK bool) {
 	parts := make([]string, len(ks))
 	for i := range ks {
@@ -50,9 +56,10 @@ func (x *c08Gen) app(kind string, c int, mode int, base uint64, ks []c08Key, ids
 		x.g.Op("fetch", "%d %d %s", c, base, strings.Join(parts, " "))
 	}
 	if expectOK {
-		for _, k := range ks {
+		for i, k := range ks {
 			if k.from != "" && k.cmn != "" {
 				x.keys[c] = append(x.keys[c], k)
+				x.pairs[c] = append(x.pairs[c], c08Pair{k, ids[i]})
 			}
 			x.seqOf[c] = append(x.seqOf[c], k)
 		}
@@ -143,6 +150,15 @@ func (x *c08Gen) collisionOp() {
 			} else {
 				ids[i] = x.freshID()
 			}
+		}
+		if n >= 1 && len(x.pairs[c]) > 0 && g.R.Chance(10) {
+			// verbatim replay of a row stored before: same sender, client number AND message id
+			// (in server-allocated mode the message-id index is not consulted, only the pair is)
+			p := x.pairs[c][g.R.Intn(len(x.pairs[c]))]
+			i := g.R.Intn(n)
+			ks[i], ids[i] = p.k, p.id
+			g.Count(fmt.Sprintf("app:verbatim-replay-mode%d", mode))
+			ok = false
 		}
 		if n >= 2 && g.R.Chance(8) {
 			ks[n-1] = ks[0]
